@@ -14,6 +14,7 @@ from .. import jets as J
 from ..observe import observe, Fresh
 
 RESERVED = ("verify", "check_sig_verify")
+CTX8 = TUP(LIST(U(8), 64), TUP(U(64), U(256)))
 
 
 def list_jets():
@@ -51,7 +52,13 @@ def build(j, variant):
         call = Call(f, wits)
     else:
         raise ValueError(variant)
-    stmts += observe(call, rty, "EXP", Fresh("r"))
+    if rty == CTX8:
+        # a SHA-256 context carries a List<u8, 64>: observing it block by block costs z3 50-120 s per jet;
+        # observe it through the (uninterpreted) finalisation instead
+        stmts.append(Let("r_ctx", rty, call))
+        stmts.append(ExprStmt(Assert(JetCall("eq_256", [JetCall("sha_256_ctx_8_finalize", [Var("r_ctx", rty)], U(256)), Wit("EXP", U(256))], BOOL))))
+    else:
+        stmts += observe(call, rty, "EXP", Fresh("r"))
     return Program(fns, Block(stmts)), ptys, rty
 
 
